@@ -272,16 +272,8 @@ def flip_comparisons(tree):
                     and not (isinstance(n.comparators[0], ast.Constant) and n.comparators[0].value is None):
                 count[0] += 1
                 return ast.copy_location(ast.Compare(left=n.comparators[0], ops=[flip[type(n.ops[0])]()], comparators=[n.left]), n)
-            elif isinstance(n.func, ast.Attribute) and isinstance(n.func.value, ast.Name) and n.args and cur and \
-                    not any(isinstance(a, ast.Starred) for a in n.args) and not any(k.arg is None for k in n.keywords):
-                ps = method_params(local_class(cur[0], n.func.value.id), n.func.attr)
-                if ps and len(n.args) <= len(ps) and not set(ps[:len(n.args)]) & {k.arg for k in n.keywords}:
-                    n.keywords = [ast.keyword(arg=nm, value=a) for nm, a in zip(ps, n.args)] + n.keywords
-                    n.args = []
-                    count[0] += 1
             return n
     for fn in [x for x in ast.walk(tree) if isinstance(x, (ast.FunctionDef, ast.AsyncFunctionDef))]:
-        cur[:] = [fn]
         T().visit(fn)
     ast.fix_missing_locations(tree)
     return count[0]
@@ -438,6 +430,85 @@ def inline_temps(tree):
     return count[0]
 
 
+def swap_arms(tree):
+    """if c: A else: B   ->   if not c: B else: A       (both arms present, B not an `elif` chain; `not (not c)` is written c)"""
+    count = [0]
+
+    class T(ast.NodeTransformer):
+        def visit_If(self, n):
+            self.generic_visit(n)
+            if n.body and n.orelse and not (len(n.orelse) == 1 and isinstance(n.orelse[0], ast.If)):
+                t = n.test
+                n.test = t.operand if isinstance(t, ast.UnaryOp) and isinstance(t.op, ast.Not) else ast.UnaryOp(op=ast.Not(), operand=t)
+                n.body, n.orelse = n.orelse, n.body
+                count[0] += 1
+            return n
+    for fn in [x for x in ast.walk(tree) if isinstance(x, (ast.FunctionDef, ast.AsyncFunctionDef))]:
+        fn.body = [T().visit(st) for st in fn.body]
+    ast.fix_missing_locations(tree)
+    return count[0]
+
+
+def generators_for_lists(tree):
+    """sorted([.. for ..]) -> sorted(.. for ..)   and the reverse, for the builtins that only iterate their argument once (sorted, sum, min,
+    max, any, all, set, frozenset, tuple, list, dict, enumerate, str.join): a list comprehension handed straight to one of them becomes a
+    generator expression, a generator expression becomes a list comprehension"""
+    count = [0]
+    ONCE = {"sorted", "sum", "min", "max", "any", "all", "set", "frozenset", "tuple", "list", "dict", "enumerate"}
+
+    class T(ast.NodeTransformer):
+        def visit_Call(self, n):
+            self.generic_visit(n)
+            ok = (isinstance(n.func, ast.Name) and n.func.id in ONCE) or (isinstance(n.func, ast.Attribute) and n.func.attr == "join" and isinstance(n.func.value, ast.Constant))
+            if ok and n.args and not any(isinstance(a, ast.Starred) for a in n.args):
+                a0 = n.args[0]
+                if isinstance(a0, ast.ListComp):
+                    n.args[0] = ast.copy_location(ast.GeneratorExp(elt=a0.elt, generators=a0.generators), a0)
+                    count[0] += 1
+                elif isinstance(a0, ast.GeneratorExp):
+                    n.args[0] = ast.copy_location(ast.ListComp(elt=a0.elt, generators=a0.generators), a0)
+                    count[0] += 1
+            return n
+    for fn in [x for x in ast.walk(tree) if isinstance(x, (ast.FunctionDef, ast.AsyncFunctionDef))]:
+        T().visit(fn)
+    ast.fix_missing_locations(tree)
+    return count[0]
+
+
+def name_tests(tree):
+    """if <test>: ..   ->   test__n = <test>; if test__n: ..       (statement-level `if`, also in `elif` position where the name goes into
+    the else block in front of the inner `if`; tests that are already a plain name, `x is None` style one-liners included)"""
+    count = [0]
+
+    class T(ast.NodeTransformer):
+        def _block(self, stmts):
+            out = []
+            for st in stmts:
+                if isinstance(st, ast.If) and not isinstance(st.test, (ast.Name, ast.Constant)) \
+                        and not any(isinstance(y, (ast.NamedExpr, ast.Await, ast.Yield, ast.YieldFrom)) for y in ast.walk(st.test)):
+                    count[0] += 1
+                    nm = f"test__n{count[0]}"
+                    out.append(ast.copy_location(ast.Assign(targets=[ast.Name(id=nm, ctx=ast.Store())], value=st.test, lineno=st.lineno), st))
+                    st.test = ast.copy_location(ast.Name(id=nm, ctx=ast.Load()), st)
+                out.append(st)
+            return out
+
+        def generic_visit(self, node):
+            node = super().generic_visit(node)
+            for fld in ("body", "orelse", "finalbody"):
+                v = getattr(node, fld, None)
+                if isinstance(v, list) and v and isinstance(v[0], ast.stmt) and not isinstance(node, (ast.ClassDef, ast.Module)):
+                    setattr(node, fld, self._block(v))
+            if isinstance(node, ast.Try):
+                for h in node.handlers:
+                    h.body = self._block(h.body)
+            return node
+    for fn in [x for x in ast.walk(tree) if isinstance(x, (ast.FunctionDef, ast.AsyncFunctionDef))]:
+        T().visit(fn)
+    ast.fix_missing_locations(tree)
+    return count[0]
+
+
 def transformed_copy(mode, suffix="_q"):
     """a scratch copy of the analysed tree (VERIF_REPO_ROOT or /repo) with one transformation applied everywhere; (path, number of rewrites)"""
     src_root = os.environ.get("VERIF_REPO_ROOT", "/repo")
@@ -460,7 +531,8 @@ def transformed_copy(mode, suffix="_q"):
                 total += k
             continue
         k = {"hoist-returns": hoist_returns, "name-arguments": name_arguments, "unelse": unelse, "else-after-exit": else_after_exit,
-             "flip-comparisons": flip_comparisons, "inline-temps": inline_temps}.get(mode, lambda t: rename_locals(t, suffix))(tree)
+             "flip-comparisons": flip_comparisons, "inline-temps": inline_temps, "swap-arms": swap_arms, "generators-for-lists": generators_for_lists,
+             "name-tests": name_tests}.get(mode, lambda t: rename_locals(t, suffix))(tree)
         if k:
             open(path, "w").write(ast.unparse(tree) + "\n")
             total += k
@@ -476,7 +548,7 @@ def main():
     if "--only" in sys.argv:
         only = sys.argv[sys.argv.index("--only") + 1].split(",")
     mode = "rename-locals"
-    for m_ in ("hoist-returns", "name-arguments", "unelse", "else-after-exit", "flip-comparisons", "keyword-arguments", "inline-temps"):
+    for m_ in ("hoist-returns", "name-arguments", "unelse", "else-after-exit", "flip-comparisons", "keyword-arguments", "inline-temps", "swap-arms", "generators-for-lists", "name-tests"):
         if "--" + m_ in sys.argv:
             mode = m_
     out = tempfile.mkdtemp(prefix="batchie-verif-alpha-out-", dir="/var/tmp")
